@@ -406,7 +406,7 @@ func ruleCanonBeforeKey(c *Ctx) {
 		c.touched(fname(fn))
 		var initCall ssa.Instruction
 		instrs(fn, func(ins ssa.Instruction) {
-			if cc := callCommon(ins); cc != nil && cc.StaticCallee() != nil && cc.StaticCallee().Name() == "init" && origin(cc.Args[0]) == ssa.Value(fn.Params[1]) {
+			if cc := callCommon(ins); cc != nil && cc.StaticCallee() != nil && baseFuncName(cc.StaticCallee()) == "init" && origin(cc.Args[0]) == ssa.Value(fn.Params[1]) {
 				initCall = ins
 			}
 		})
@@ -514,9 +514,9 @@ func ruleFlushFullList(c *Ctx) {
 		}
 		ok := false
 		instrs(fn, func(ins ssa.Instruction) {
-			if cc := callCommon(ins); cc != nil && cc.StaticCallee() != nil && cc.StaticCallee().Name() == "EncodeJSONFile" {
+			if cc := callCommon(ins); cc != nil && cc.StaticCallee() != nil && baseFuncName(cc.StaticCallee()) == "EncodeJSONFile" {
 				if origin(cc.Args[1]) == ssa.Value(fn.Params[1]) {
-					if f, _, okf := fieldLoad(cc.Args[0]); okf && f.Name() == "filePath" {
+					if f, _, okf := fieldLoad(cc.Args[0]); okf && theProgram.baseFieldName(f) == "filePath" {
 						ok = true
 					}
 				}
